@@ -153,3 +153,28 @@ package ecs
 //@   loop 2 invariant shape: shrinkShape(s) && len(s.tables) == old(len(s.tables)) && 0 <= tableIdx
 //@   loop 2 invariant done: forall t int :: 0 <= t && t < tableIdx && t < len(s.tables) ==> !tableHasWork(s, &s.tables[t])
 //@   ensures  no-work: !result ==> (forall t int :: 0 <= t && t < len(s.tables) ==> !tableHasWork(s, &s.tables[t]))
+
+// createEntities (batch creation, C02): every created entity comes from the pool, and the raw
+// pointer through which Alive reads generations still addresses the pool's entity slice afterwards.
+//@ func (*table).Alloc
+//@   serves C02 C01
+//@   dataplane
+//@   modifies t.len, t.cap, rowEnt(t)[*], t.entities.pointer, t.entities.data, t.columns[*].pointer, t.columns[*].data
+
+//@ func (*table).SetEntity
+//@   serves C02 C01
+//@   dataplane
+//@   modifies rowEnt(t)[*]
+
+//@ spec func nPool(s *storage) int := len(s.entityPool.entities)
+//@ spec func nIndex(s *storage) int := len(s.entities)
+//@ spec func nTarget(s *storage) int := len(s.isTarget)
+//@ func (*storage).createEntities
+//@   serves C02
+//@   requires table != nil && poolInv(&s.entityPool) && poolPtrOK(&s.entityPool) && count >= 0 && uint64(nPool(s)) + uint64(count) < 1<<32 - 1
+//@   requires nIndex(s) == nPool(s) && nTarget(s) == nIndex(s)
+//@   loop 1 invariant pool: poolInv(&s.entityPool) && poolPtrOK(&s.entityPool) && uint64(nPool(s)) + uint64(count) - uint64(__idx) < 1<<32 - 1
+//@   loop 1 invariant lens: len == nIndex(s) && nIndex(s) == nPool(s) && nTarget(s) == nIndex(s)
+//@   loop 1 invariant count: *epAlive(&s.entityPool) == old(*epAlive(&s.entityPool)) + uint64(__idx)
+//@   ensures  pool: poolInv(&s.entityPool) && poolPtrOK(&s.entityPool)
+//@   ensures  count: *epAlive(&s.entityPool) == old(*epAlive(&s.entityPool)) + uint64(count)
